@@ -1,3 +1,4 @@
+import Ruint.Lemmas.GenLehmer
 import Ruint.Lemmas.LehmerFrom
 import Ruint.Lemmas.LehmerExtra
 import Ruint.Lemmas.Gcd
@@ -201,5 +202,33 @@ example : good 252 105 (2, 5, 5, 12, false) = true := by decide
 example : gcd 8 252 105 = some 21 := by decide
 example : gcdExtended 8 252 105 = some (21, 2, 5, false) := by decide
 example : lcm 8 12 18 = some (some 36) ∧ lcm 8 252 105 = some none := by decide
+
+
+/-! ## Tie of the matrix kernels to the source (G)
+
+`Ruint/Gen/WordsLehmer.lean` is regenerated from `src/algorithms/gcd/matrix.rs` by `tools/rs2lean.py` on every run:
+`compose`, `apply_u128`, `from_u64` (the `loop`), `from_u64_prefix` (packed cofactors, the twice-unrolled `while`, all
+nine return sites) and `from_u128_prefix`, with Rust's wrapping `u64`/`u128` semantics and loops as a step function
+iterated by a fuelled combinator. On their documented domains the models the theorems above are about EQUAL the
+generated definitions (run with the model's own fuel), so `matrix_from_spec`, `from_u64_prefix_spec`, … are statements
+about what the source says now; a changed comparison, operand or return tuple breaks these obligations. -/
+
+theorem gen_compose_eq (m n : Mat) : Ruint.Gen.lehmer_compose m n = compose m n :=
+  Ruint.GenLehmer.compose_eq m n
+
+theorem gen_apply_u128_eq (m : Mat) (a b : ℕ) : Ruint.Gen.lehmer_apply_u128 m a b = applyU128 m a b :=
+  Ruint.GenLehmer.apply_u128_eq m a b
+
+theorem gen_from_u64_prefix_eq (a0 a1 : ℕ) (h : ¬ (a0 < 2 ^ 63 ∨ a0 < a1)) :
+    fromU64Prefix a0 a1 = some (Ruint.Gen.lehmer_from_u64_prefix (a1 + 1) a0 a1) :=
+  Ruint.GenLehmer.from_u64_prefix_eq a0 a1 h
+
+theorem gen_from_u128_prefix_eq (r0 r1 n : ℕ) (hn : bitLen r0 = n) (h64 : 64 ≤ n) (h128 : n ≤ 128) (hle : r1 ≤ r0) :
+    fromU128Prefix r0 r1 = some (Ruint.Gen.lehmer_from_u128_prefix (r1 / 2 ^ (n - 64) + 1) r0 r1) :=
+  Ruint.GenLehmer.from_u128_prefix_eq r0 r1 n hn h64 h128 hle
+
+theorem gen_from_u64_eq (r0 r1 : ℕ) (hle : r1 ≤ r0) (hW : r0 < W) :
+    fromU64 r0 r1 = some (Ruint.Gen.lehmer_from_u64 (r1 + 1) r0 r1) :=
+  Ruint.GenLehmer.from_u64_eq r0 r1 hle hW
 
 end Ruint.C12
